@@ -520,7 +520,7 @@ func runC14(c *core.Ctx) core.Meta {
 			// guarded by instCompleted == false: the If on a phi named instCompleted
 			guarded := g.Guarded(n, boolCut(func(_ *core.Node, v ssa.Value) bool {
 				ph, ok := v.(*ssa.Phi)
-				return ok && ph.Comment == "instCompleted"
+				return ok && core.PinnedName(fn, ph.Comment) == "instCompleted"
 			}, false))
 			if !guarded {
 				okKeep = false
